@@ -507,7 +507,26 @@ type accSig struct {
 
 func accessorSig(p *Prog, fn *ssa.Function) accSig {
 	s := accSig{map[string][]int64{}, map[string]bool{}, map[string]bool{}}
-	for _, in := range p.Info(fn).Instrs {
+	// the accessor's own instructions plus those of small private helpers it calls
+	// (e.g. a shared address computation), two levels deep
+	instrs := append([]ssa.Instruction{}, p.Info(fn).Instrs...)
+	seenF := map[*ssa.Function]bool{fn: true}
+	for depth, frontier := 0, []*ssa.Function{fn}; depth < 2 && len(frontier) > 0; depth++ {
+		var next []*ssa.Function
+		for _, f := range frontier {
+			for _, in := range p.Info(f).Instrs {
+				if cc := callOf(in); cc != nil {
+					if h := cc.StaticCallee(); h != nil && h.Blocks != nil && h.Package() == fn.Package() && !seenF[h] && h.Synthetic == "" {
+						seenF[h] = true
+						instrs = append(instrs, p.Info(h).Instrs...)
+						next = append(next, h)
+					}
+				}
+			}
+		}
+		frontier = next
+	}
+	for _, in := range instrs {
 		switch x := in.(type) {
 		case *ssa.BinOp:
 			for _, o := range []ssa.Value{x.X, x.Y} {
